@@ -275,3 +275,33 @@ M("C17-centre-median", {"C17": "C17.R1"}, (_CM, "    global_center = np.mean(sta
 M("C17-centre-axis1", {"C17": "C17.R1"}, (_CM, "    global_center = np.mean(stacked_training_data)", "    global_center = np.mean(stacked_training_data, axis=1)"))
 # repaired F6: the check passes with no KNOWN-FINDING
 M("C17-twin-F6-repaired", {"C17": None}, (_CM, "    global_center = np.mean(stacked_training_data)", "    global_center = np.mean(stacked_training_data, axis=0)"))
+
+# ---------------------------------------------------------------- C10 / C04
+M("C10-source-row-minus-one", {"C10": "C10.R1"}, (_DP, "stacked_training_data[i, start_column:end_column] = data[i+j, :]", "stacked_training_data[i, start_column:end_column] = data[i+j-1, :]"))
+M("C10-accumulate", {"C10": "C10.R1"}, (_DP, "stacked_training_data[i, start_column:end_column] = data[i+j, :]", "stacked_training_data[i, start_column:end_column] += data[i+j, :]"))
+M("C10-block-width", {"C10": "C10.R1"}, (_DP, "            end_column = (j+1) * num_features\n", "            end_column = (j+1) * num_features - 1\n"))
+M("C10-rows-short", {"C10": "C10.R1", "C04": "C04.R2"}, (_DP, "    num_full_windows = num_data_points - window_size + 1\n", "    num_full_windows = num_data_points - window_size\n"))
+M("C10-early-return-equal", {"C10": "C10.R1"}, (_DP, "    num_features = data.shape[1]\n    stacked_training_data = np.zeros", "    num_features = data.shape[1]\n    if num_data_points <= window_size:\n        return np.zeros([0, num_features * window_size])\n    stacked_training_data = np.zeros"))
+M("C10-slots-short", {"C10": "C10.R1"}, (_DP, "        for j in range(window_size):\n            start_column", "        for j in range(window_size - 1):\n            start_column"))
+M("C10-float32-target", {"C10": "C10.R1"}, (_DP, "                                      num_features * window_size])\n", "                                      num_features * window_size], dtype=np.float32)\n"))
+M("C10-twin-inline-slices", {"C10": None, "C04": None}, (_DP, "            start_column = j * num_features\n            end_column = (j+1) * num_features\n            stacked_training_data[i, start_column:end_column] = data[i+j, :]", "            stacked_training_data[i, j * num_features:(j + 1) * num_features] = data[j + i]"))
+M("C10-twin-block-copy", {"C10": None},
+  (_DP, "    for i in range(num_full_windows):\n        for j in range(window_size):\n            start_column = j * num_features\n            end_column = (j+1) * num_features\n            stacked_training_data[i, start_column:end_column] = data[i+j, :]\n",
+   "    for j in range(window_size):\n        stacked_training_data[:, j * num_features:(j + 1) * num_features] = data[j:j + num_full_windows, :]\n"))
+M("C04-pad-half-minus-one", {"C04": "C04.R1", "C10": "C10.R3"}, (_DP, "    front_length = int((window_size - 1)/2)", "    front_length = window_size // 2 - 1"))
+M("C04-pad-round", {"C04": "C04.R1", "C10": "C10.R3"}, (_DP, "    front_length = int((window_size - 1)/2)", "    front_length = int(round((window_size - 1)/2))"))
+M("C04-pad-back-independent", {"C04": "C04.R1"}, (_DP, "    back_length = (window_size - 1) - front_length", "    back_length = int((window_size - 1)/2 + 0.5)"))
+M("C04-pad-order", {"C04": "C04.R1"}, (_DP, "    final_labels = front_labels + original_labels + back_labels", "    final_labels = back_labels + original_labels + front_labels"))
+M("C04-pad-marker-zero", {"C04": "C04.R1"}, (_DP, "    front_labels = [-1] * front_length", "    front_labels = [0] * front_length"))
+M("C04-split-start-plus-one", {"C04": "C04.R3", "C10": "C10.R3"}, (_DP, "            start = sequence_end_indices[i-1]\n", "            start = sequence_end_indices[i-1] + 1\n"))
+M("C04-split-end-prev", {"C04": "C04.R3"}, (_DP, "        end = sequence_end_indices[i]\n", "        end = sequence_end_indices[i] - 1\n"))
+M("C04-split-skips-last", {"C04": "C04.R3"}, (_DP, "    for i in range(len(stacked_series_lengths)):\n        # Start", "    for i in range(len(stacked_series_lengths) - 1):\n        # Start"))
+M("C04-sizes-no-plus-one", {"C04": "C04.R2"}, ("front_end.py", "        len(series) - window_size + 1\n", "        len(series) - window_size\n"))
+M("C04-assembly-pad-default-window", {"C04": "C04.R4"}, ("front_end.py", "                label_set, master_result.window_size)", "                label_set, 10)"))
+M("C04-assembly-reversed", {"C04": "C04.R4"}, ("front_end.py", "    for (i, label_set) in enumerate(individual_label_sets):", "    for (i, label_set) in enumerate(reversed(individual_label_sets)):"))
+M("C04-single-pads-twice", {"C04": "C04.R4"}, ("front_end.py", "    return ticc_result\n\n\ndef ticc_joint_labels", "    ticc_result.point_labels = data_preparation.pad_missing_labels(ticc_result.point_labels, 1)\n    return ticc_result\n\n\ndef ticc_joint_labels"))
+M("C04-mrfs-only-nonempty", {"C04": "C04.R5"}, ("main_loop.py", "        for cluster_id in range(current_model_state.arguments.num_clusters)\n    ]", "        for cluster_id in range(current_model_state.arguments.num_clusters)\n        if current_model_state.clusters[cluster_id].size > 0\n    ]"))
+M("C04-labels-shifted", {"C04": "C04.R5"}, ("main_loop.py", "        labels[i] = current_model_state.point_labels[i]", "        labels[i] = current_model_state.point_labels[i - 1]"))
+M("C04-echo-K-from-list", {"C04": "C04.R5"}, ("main_loop.py", "        num_clusters=current_model_state.arguments.num_clusters,\n        point_labels=labels,", "        num_clusters=len(set(labels)),\n        point_labels=labels,"))
+M("C04-twin-floordiv", {"C04": None, "C10": None}, (_DP, "    front_length = int((window_size - 1)/2)", "    front_length = (window_size - 1) // 2"))
+M("C04-twin-labels-list", {"C04": None}, ("main_loop.py", "    labels = [-1] * num_data_points\n    for i in range(stacked_training_data.shape[0]):\n        labels[i] = current_model_state.point_labels[i]\n", "    labels = list(current_model_state.point_labels)\n"))
